@@ -72,18 +72,6 @@ fn bounds_of(plan: &LocalPlan) -> Vec<f64> {
     b.dedup();
     b
 }
-struct InjectedPanic;
-fn drop_while_unwinding<T>(x: T) {
-    let r = std::panic::catch_unwind(std::panic::AssertUnwindSafe(move || {
-        let _x = x;
-        std::panic::resume_unwind(Box::new(InjectedPanic));
-    }));
-    match r {
-        Err(e) if e.is::<InjectedPanic>() => {}
-        Err(e) => std::panic::resume_unwind(e),
-        Ok(()) => unreachable!(),
-    }
-}
 const TUPLES: &[&str] = &["x", "y"];
 
 /// observed value of an update with weight exponent `bit`
